@@ -48,6 +48,9 @@ inductive BlkKind where
 inductive Site where
   | call | wrapper | closure
   | earlier      -- a closure made (frame cloned) by an earlier, completed evaluation
+  | wrapperLate  -- a function wrapper entered by native code the evaluation has started and which calls back later
+                 -- (a timer, a handler): the same site as `wrapper`; the correspondence harness holds such a call
+                 -- back, when it is in flight at the cancellation, until everything else has settled
   deriving DecidableEq, Repr, Inhabited
 
 structure BlockFact where
@@ -125,9 +128,11 @@ def RunIdFacts.blk (F : RunIdFacts) : BlkKind → BlockFact
 
 def RunIdFacts.site (F : RunIdFacts) : Site → IdSrc
   | .call => F.callId | .wrapper => F.wrapperId | .closure => F.closureId | .earlier => F.closureId
+  | .wrapperLate => F.wrapperId
 
 def RunIdFacts.siteDone (F : RunIdFacts) : Site → DoneSrc
   | .call => .inherit | .wrapper => F.wrapperDone | .closure => F.closureDone | .earlier => F.closureDone
+  | .wrapperLate => F.wrapperDone
 
 /-- the id a new frame gets -/
 def newId (s : IdSrc) (parent cur root : Nat) : Nat :=
@@ -498,7 +503,9 @@ inductive DefKind where
   deriving DecidableEq, Repr, Inhabited
 
 inductive Via where
-  | eval | host
+  | eval       -- `Eval` of a call expression
+  | evalCtx    -- `EvalWithContext` of a call expression, with a context that is never cancelled
+  | host       -- a direct call by the host of the function value
   deriving DecidableEq, Repr, Inhabited
 
 /-- what a cancelled evaluation was doing; for an already expired context the watcher may run `stop()`
@@ -514,10 +521,11 @@ structure Def where
   b : Nat
   calls : Nat
   inited : Bool    -- the initialiser that stores `b` has run (always, except in a package imported on a stale root frame)
+  blk : Bool       -- the body computes its value in a goroutine and receives it over a channel (a blocking operation)
   deriving DecidableEq, Repr, Inhabited
 
 inductive Ev where
-  | define (k : DefKind) (a b : Nat)
+  | define (k : DefKind) (a b : Nat) (blk : Bool)
   | use (d : Nat) (via : Via) (x : Nat)
   | cancelled (c : CancelKind)
   deriving DecidableEq, Repr, Inhabited
@@ -525,6 +533,8 @@ inductive Ev where
 structure HSt where
   id : Nat
   rootId : Nat
+  idone : Bool             -- `interp.done` is a closed channel
+  rdone : Bool             -- the done channel stored in the root frame is closed
   defs : List Def
   results : List Nat       -- results of the uses, most recent first
   deriving DecidableEq, Repr, Inhabited
@@ -532,8 +542,22 @@ structure HSt where
 /-- `Execute` starts: the root frame takes the current id -/
 def HSt.refresh (F : RunIdFacts) (h : HSt) : HSt := { h with rootId := if F.execRefresh then h.id else h.rootId }
 
+/-- an evaluation starts: a `…WithContext` entry point installs a fresh `interp.done` first; `Execute` refreshes the
+    root id; its first `interp.run` stores `interp.done`, as it is, in the root frame -/
+def HSt.enter (F : RunIdFacts) (h : HSt) (ctx : Bool) : HSt :=
+  let idone := if ctx && F.ctxFreshDone then false else h.idone
+  { h.refresh F with idone := idone, rdone := idone }
+
 /-- `Execute` returns: the deferred refresh -/
 def HSt.leave (F : RunIdFacts) (h : HSt) : HSt := { h with rootId := if F.execRefreshAtReturn then h.id else h.rootId }
+
+/-- the watcher's `stop()`: the id moves on, the current `interp.done` is closed (`rootIsCur`: it is the channel the
+    root frame holds) and, after ba001d8, replaced by a fresh one -/
+def HSt.stop (F : RunIdFacts) (h : HSt) (rootIsCur : Bool) : HSt :=
+  let stops := F.watcherStops
+  { h with id := if stops && F.stopBumps then h.id + 1 else h.id,
+           rdone := h.rdone || (rootIsCur && stops && F.stopCloses),
+           idone := if stops && F.stopRenews then false else h.idone || (stops && F.stopCloses) }
 
 /-- how a definition of kind `k`, made by a successful evaluation in state `h` (root already refreshed), is bound -/
 def bindingOf (F : RunIdFacts) (h : HSt) : DefKind → Binding
@@ -562,47 +586,54 @@ def alive (F : RunIdFacts) (h : HSt) (d : Def) : Bool := guardOk F (useFrameId F
 
 def value (d : Def) (x : Nat) : Nat := x * d.a + (if d.inited then d.b else 0) + (d.calls + 1)
 
+/-- what a use does once the root id is settled: nothing if the frame of the body is stale; if the body blocks on a
+    channel while the done channel its frame gets (the root frame's, directly through `newCallFrame` or inherited by
+    the frame of a call made from the root frame) is closed, the blocking operation is "cancelled" at once: the body
+    has counted the call and returns the zero value; otherwise the value -/
+def useBody (F : RunIdFacts) (h1 : HSt) (i x : Nat) : HSt :=
+  match h1.defs[i]? with
+  | none => h1
+  | some d =>
+    if alive F h1 d then
+      if d.blk && h1.rdone then
+        { h1 with defs := h1.defs.set i { d with calls := d.calls + 1 }, results := 0 :: h1.results }
+      else
+        { h1 with defs := h1.defs.set i { d with calls := d.calls + 1 }, results := value d x :: h1.results }
+    else
+      -- no operation of the body runs: the result cells keep their zero value, no state changes
+      { h1 with results := 0 :: h1.results }
+
 def stepH (F : RunIdFacts) (h : HSt) : Ev → HSt
-  | .define k a b =>
+  | .define k a b blk =>
     let inited := match k with | .imported => importRuns F h | _ => true
-    let h1 := h.refresh F
-    ({ h1 with defs := h1.defs ++ [{ kind := k, binding := bindingOf F h1 k, a := a, b := b, calls := 0, inited := inited }] } : HSt).leave F
-  | .use i via x =>
-    let h1 := match via with | .eval => h.refresh F | .host => h
-    let h2 : HSt := match h1.defs[i]? with
-      | none => h1
-      | some d =>
-        if alive F h1 d then
-          { h1 with defs := h1.defs.set i { d with calls := d.calls + 1 }, results := value d x :: h1.results }
-        else
-          -- no operation of the body runs: the result cells keep their zero value, no state changes
-          { h1 with results := 0 :: h1.results }
-    match via with | .eval => h2.leave F | .host => h2
+    let h1 := h.enter F false
+    ({ h1 with defs := h1.defs ++ [{ kind := k, binding := bindingOf F h1 k, a := a, b := b, calls := 0, inited := inited, blk := blk }] } : HSt).leave F
+  | .use i .eval x => (useBody F (h.enter F false) i x).leave F
+  | .use i .evalCtx x => (useBody F (h.enter F true) i x).leave F
+  | .use i .host x => useBody F h i x
   | .cancelled c =>
     match c with
     | .expiredBefore =>
-      -- stop() first, then Execute refreshes the root frame with the new id, runs, and returns
-      let h1 : HSt := { h with id := if F.watcherStops && F.stopBumps then h.id + 1 else h.id }
-      (h1.refresh F).leave F
-    | _ =>
-      let h1 := h.refresh F
-      ({ h1 with id := if F.watcherStops && F.stopBumps then h1.id + 1 else h1.id } : HSt).leave F
+      -- the entry point installs its done channel, stop() runs, THEN Execute starts (refresh, root done), runs, returns
+      let h1 : HSt := { h with idone := if F.ctxFreshDone then false else h.idone }
+      (((h1.stop F false).enter F false)).leave F
+    | _ => ((h.enter F true).stop F true).leave F
 
 def runHist (F : RunIdFacts) (h : HSt) (evs : List Ev) : HSt := evs.foldl (stepH F) h
 
-def HSt.init : HSt := { id := 0, rootId := 0, defs := [], results := [] }
+def HSt.init : HSt := { id := 0, rootId := 0, idone := false, rdone := false, defs := [], results := [] }
 
 /-- the window the events above do not contain: the watcher has run `stop()` and the `…WithContext` call has
     returned, but `Execute` (its own goroutine) has not: nothing has refreshed the root frame yet -/
-def HSt.stoppedNotLeft (F : RunIdFacts) (h : HSt) : HSt :=
-  let h1 := h.refresh F
-  { h1 with id := if F.watcherStops && F.stopBumps then h1.id + 1 else h1.id }
+def HSt.stoppedNotLeft (F : RunIdFacts) (h : HSt) : HSt := (h.enter F true).stop F true
 
 /-- histories with that window made visible: `hold` is a cancelled busy loop whose `Execute` is kept from returning
     until the NEXT event is over (the correspondence harness does this with the step hook) -/
 inductive XEv where
   | ev (e : Ev)
   | hold
+  | lateStop    -- an evaluation under an (already expired) context that finishes — its `Execute` returns — just before
+                -- the watcher runs `stop()`: the call returns the context's error, nothing refreshes the root frame afterwards
   deriving DecidableEq, Repr, Inhabited
 
 /-- the cancelled `Execute` that was held returns: its deferred refresh -/
@@ -611,6 +642,7 @@ def settle (F : RunIdFacts) (h : HSt) (held : Bool) : HSt := if held then h.leav
 def stepX (F : RunIdFacts) (s : HSt × Bool) : XEv → HSt × Bool
   | .ev e => (settle F (stepH F s.1 e) s.2, false)
   | .hold => ((settle F s.1 s.2).stoppedNotLeft F, true)
+  | .lateStop => ((((settle F s.1 s.2).enter F true).leave F).stop F true, false)
 
 def runX (F : RunIdFacts) (evs : List XEv) : HSt :=
   let r := evs.foldl (stepX F) (HSt.init, false)
@@ -621,10 +653,11 @@ def XEv.plain : List XEv → List Ev
   | [] => []
   | .ev e :: rest => e :: XEv.plain rest
   | .hold :: rest => XEv.plain rest
+  | .lateStop :: rest => XEv.plain rest
 
 /-- the specification: a definition always runs (what Go, and the property, demand) -/
 def stepSpec (h : HSt) : Ev → HSt
-  | .define k a b => { h with defs := h.defs ++ [{ kind := k, binding := .callee, a := a, b := b, calls := 0, inited := true }] }
+  | .define k a b blk => { h with defs := h.defs ++ [{ kind := k, binding := .callee, a := a, b := b, calls := 0, inited := true, blk := blk }] }
   | .use i _ x =>
     match h.defs[i]? with
     | none => h
